@@ -7,6 +7,7 @@ import itertools
 import numpy as np
 from hypothesis import strategies as st
 
+from vf import scenario_kit as kit  # noqa: F401  (installs the Ray double before resonaate is imported: the engine clause builds a scenario)
 from vf.runner import Prop, Violation
 
 PROP = Prop(
@@ -413,3 +414,57 @@ def rewards(c, rec):
 def finish_evidence(evidence, recs):
     evidence["coverage"]["exhaustive_part"] = ("small_exhaustive enumerates its finite domain completely (counts per shape in "
                                                "clauses.small_exhaustive.labels); the other clauses are sampled")
+
+
+# ------------------------------------------------------------------------------------------------
+# the same predicates through the tasking engine (the decision the engine stores in the tasks table)
+# ------------------------------------------------------------------------------------------------
+_ENGINES: dict = {}
+
+
+def _engine(policy):
+    """A real CentralizedTaskingEngine (3 targets x 2 sensors) with the named policy, built through the scenario builder."""
+    if policy not in _ENGINES:
+        from datetime import datetime, timedelta
+
+        from vf import scenario_kit as kit
+
+        t0 = datetime(2019, 3, 4, 12, 0, 0)
+        sens = [kit.ground_sensor(27001 + i, 10.0 + i, 20.0 - i, kind="adv_radar") for i in range(2)]
+        tgts = [kit.eci_target(17001 + j, kit.circular_state_over(10.0, 20.0, t0, 20000.0 + 300.0 * j, heading_deg=40.0 * j)) for j in range(3)]
+        extra = {"seed": 11} if policy == "RandomDecision" else None
+        cfg = kit.scenario_config(t0, t0 + timedelta(seconds=300), 60, [kit.engine(1, sens, tgts, decision=policy, decision_extra=extra)])
+        _ENGINES[policy] = kit.build(cfg).tasking_engines[1]
+    return _ENGINES[policy]
+
+
+def _engine_cases():
+    small = st.sampled_from([-1.0, 0.0, 0.0, 1.0, 2.0])
+    rows = st.one_of(st.lists(small, min_size=6, max_size=6), st.lists(st.floats(-2, 2), min_size=6, max_size=6),
+                     st.sampled_from([[0.0] * 6, [1.0] * 6, [-1.0] * 6]))
+    return st.builds(lambda r, v, p: {"r": r, "v": v, "policy": p}, rows, st.lists(st.booleans(), min_size=6, max_size=6), st.sampled_from(POLICIES))
+
+
+@PROP.clause("engine_tasking", strategy=_engine_cases, quick=1200, thorough=40000, shards=4)
+def engine_tasking(c, rec):
+    """generateTasking() of a real tasking engine: the decision it stores obeys the same per-policy predicates for any reward/visibility matrices"""
+    eng = _engine(c["policy"])
+    r = np.array(c["r"], dtype=float).reshape(3, 2)
+    v = np.array(c["v"], dtype=bool).reshape(3, 2)
+    eng.reward_matrix = r.copy()
+    eng.visibility_matrix = v.copy()
+    eng.generateTasking()
+    d = np.asarray(eng.decision_matrix, dtype=bool)
+    if d.shape != r.shape:
+        raise Violation("engine_decision_shape", f"decision matrix of shape {d.shape} for a {r.shape} problem")
+    if not r.any() or len(set(c["r"])) < len(c["r"]):
+        rec.nontrivial([c["policy"], tuple(c["r"]), tuple(c["v"])])
+    rec.label("all_zero_rewards" if not r.any() else "rewards")
+    if c["policy"] == "MunkresDecision":
+        _check_munkres(r, v, d, rec)
+    elif c["policy"] == "MyopicNaiveGreedyDecision":
+        _check_greedy(r, v, d)
+    elif c["policy"] == "RandomDecision":
+        _check_random(v, d)
+    elif not np.array_equal(d, v):
+        raise Violation("all_visible", f"all-visible policy through the engine: decision {d.astype(int).tolist()} != visibility {v.astype(int).tolist()} (rewards {r.tolist()})")
